@@ -204,6 +204,9 @@ def gen_case(rnd, cname, prop, shape=None, mask_p=None, force_dt=None, zero_weig
     elif cname == "FuzzySelectedUnion":
         p["TruestOrFalsest"] = rnd.choice(["Truest", "Falsest"]) if rnd.random() < 0.95 else "Neither"
         p["NumberToConsider"] = rnd.randint(1, max(n, 1)) if rnd.random() < 0.93 else n + 1
+        if many:       # the stratified many-layer cases select a proper, non-empty part of the layers
+            p["NumberToConsider"] = rnd.randint(2, n - 2)
+            p["TruestOrFalsest"] = rnd.choice(["Truest", "Falsest"])
     elif cname == "Normalize":
         if rnd.random() < 0.7:
             p["StartVal"] = rnum(rnd, -3, 3)
